@@ -37,14 +37,14 @@ func init() {
 			"every pool point (O,±kG,[2^255]G,[(n±1)/2]G,phi(G),small-x,small-y,x near p,hashed,random) in affine/λ-scaled/(0:Y:0) representations x boundary scalars; " +
 			"PRNG cases with >=50% of scalars having bit 255 set. Oracle: affine double-and-add in math/big (plus literal k-fold sums for k<=64). " +
 			"" +
-			"History cases: the scalar object (resp. the receiver) previously held another value, was used, and reached its value through each mutator of the API; concurrent batches: 8 goroutines multiply simultaneously on objects they own (no shared argument), each result judged against the oracle. " +
+			"Steered cases: λ solved so that Z^2, Y^2, YZ or XY of the input point has a structured stored value (around multiples of 2^252..2^255, j*p/2^k, j*2^256/c and j*p/c for the small constants 3, 7, 11, 21, 1771). History cases: the scalar object (resp. the receiver) previously held another value, was used, and reached its value through each mutator of the API; concurrent batches: 8 goroutines multiply simultaneously on objects they own (no shared argument), each result judged against the oracle. " +
 			"non-trivial = k not in {0,1} and P != O; distinct by (point, representation, scalar[, second scalar], history).",
 		NewCase:  func() any { return &c01Case{} },
 		Generate: c01Generate,
 		Run:      c01Run,
 		Finish:   nil,
 		Require: func(string) map[string]int64 {
-			return map[string]int64{"k:bit255": 50, "k:nil": 1, "k=0": 1, "k=1": 1, "k=n-1": 1, "P=O": 5, "repr:scaled": 20, "repr:id-y": 3, "ksum<=64": 10, "scalar-history": 40, "elem-history": 40, "concurrent-batches": 4, "concurrent-multiplications": 32, "bits:scalar-bit-seen-as-0-or-1": 512}
+			return map[string]int64{"k:bit255": 50, "k:nil": 1, "k=0": 1, "k=1": 1, "k=n-1": 1, "P=O": 5, "repr:scaled": 20, "repr:id-y": 3, "ksum<=64": 10, "scalar-history": 40, "elem-history": 40, "concurrent-batches": 4, "concurrent-multiplications": 32, "steered": 100, "bits:scalar-bit-seen-as-0-or-1": 512}
 		},
 	})
 }
@@ -135,6 +135,22 @@ func c01Generate(c *mon.Ctx) {
 			mv := mon.PlanElemMove(via, hr)
 			k := gen.Draw(hr, n)
 			c.Structured(func() any { return &c01Case{K: fmt.Sprintf("%x", k.X), KClass: "elem-history:" + mv.Via, EMove: &mv} })
+		}
+	}
+
+	// 4b. steered representations: λ chosen so that a first-level intermediate of the first ladder steps (Z^2, Y^2, YZ, XY
+	// of the input point) has a structured stored value; scalars with bit 255 set so that the point enters the formulas at once
+	targets := gen.StoredTargets(oracle.P)
+	strideT := c.N(4, 1)
+	hi := []string{fmt.Sprintf("%x", new(big.Int).Add(new(big.Int).Lsh(big.NewInt(1), 255), big.NewInt(3))), fmt.Sprintf("%x", new(big.Int).Sub(n, big.NewInt(1))), "2", "3"}
+
+	for ti := int(c.Seed % uint64(strideT)); ti < len(targets); ti += strideT {
+		pv := pool.NonInf[ti%len(pool.NonInf)]
+		for wi, which := range []string{"Z2", "Y2", "YZ", "XY"} {
+			if rp, ok := gen.ReprHitting(pv.P, which, targets[ti]); ok {
+				e, k := mon.MkElemCase(pv, rp), hi[(ti+wi)%len(hi)]
+				c.Structured(func() any { return &c01Case{E: e, K: k, KClass: "steered:" + which} })
+			}
 		}
 	}
 
@@ -284,6 +300,10 @@ func c01Run(c *mon.Ctx, csAny any) {
 
 	c.Count("repr:" + cs.E.R.Kind)
 	c.Count("point:" + cs.E.P.Tag)
+
+	if len(cs.KClass) > 8 && cs.KClass[:8] == "steered:" {
+		c.Count("steered")
+	}
 
 	if p.IsInf() {
 		c.Count("P=O")
